@@ -58,7 +58,7 @@ func propC19(c *Ctx) propInfo {
 	roots := c.rootsByName("E1.roots", "tonconnect:Server.CheckProof", "tonconnect:Server.CheckPayload", "tonconnect:ParseStateInit",
 		"tonconnect:convertTonProofMessage", "tonconnect:compareStateInitWithAddress", "tonconnect:createMessage", "tonconnect:signatureVerify")
 	trav := map[string]bool{"tonconnect": true, "ton": true, "wallet": true, "boc": true, "tlb": true, "utils": true}
-	c.panicFree(e1cfg{roots: roots, pkgs: map[string]bool{"tonconnect": true, "ton": true}, traverse: trav, maxDepth: 2, exc: excC19, excP5: map[string]excEntry{}})
+	c.panicFree(e1cfg{roots: roots, pkgs: map[string]bool{"tonconnect": true, "ton": true}, traverse: trav, maxDepth: c.e1Depth(), exc: excC19, excP5: map[string]excEntry{}})
 	c.errflow(excC19E2, "tonconnect")
 	c.floor("E1.P2-bounds", 10)
 	c.floor("E2.R-drop", 10)
